@@ -84,7 +84,7 @@ PROPS["C10"] = dict(engine="E11", level="exploration",
    design_ref="DESIGN.md 5.10", technique="runtime monitoring: per-leaf sequence checker (exact for healthy, in-order-subsequence + conservation lower bound for stalled), bounded-progress watchdog in virtual time")
 
 PROPS["C11"] = dict(engine="E12", level="exploration",
-   rule="seeded random trees of 8-12 nodes to depth 4 over a real controller mixing Subscribe / SubscribeWithFilter / SubscribeForFilter / Clone / CloneWithFilter / CloneForFilter / monitors; EVERY node of every tree as the victim x moment in {before ready, idle, events in flight, parked inside a Refilter, list in flight, list blocked until its context is cancelled} x mechanism (node Close(); for the root also context cancel and a failing list); quick keeps half of the (victim, moment) pairs for non-root victims. distinct = (tree, victim, moment, mechanism); non-trivial = the victim's subtree was checked closed and every node outside checked alive (and, when the root survives, functional on 20 further mutations). Joins as tree members are exercised in E10 (C09 close clause).",
+   rule="seeded random trees of 8-12 nodes to depth 4 over a real controller mixing Subscribe / SubscribeWithFilter / SubscribeForFilter / Clone / CloneWithFilter / CloneForFilter / monitors; EVERY node of every tree as the victim x moment in {before ready, idle, events in flight, parked inside a Refilter, list in flight, list blocked until its context is cancelled} x mechanism (node Close(); for the root also context cancel and a failing list); quick keeps half of the (victim, moment) pairs for non-root victims. distinct = (tree, victim, moment, mechanism); non-trivial = the victim's subtree was checked closed and every node outside checked alive (and, when the root survives, functional on 20 further mutations). Joins as tree members: E10's create/close cycles for four joins run inside this check, their close-related classes (leak, hang, base stopped) reported as join:<class>.",
    assumptions=["'eventually closes' is restated as: within 3 refresh periods + 10s of virtual time"],
    floors={"any": {"subtree-nodes-checked": 500, "outside-nodes-checked": 1000, "survivor-rounds": 100}},
    level_text="Seeded exploration over (tree x victim x moment x mechanism): after closing the victim every node of its subtree has Done() closed and Events() closed after its buffered events; every other node is still open and functional (caches follow the server, filtered nodes equal filter(parent), subscribers and monitors keep receiving).",
@@ -139,7 +139,7 @@ PROPS["C09"] = dict(engine="E10", level="exploration",
    design_ref="DESIGN.md 5.9", technique="runtime monitoring: snapshot oracle at synctest quiescence barriers, event-replay mirror, goroutine-census conservation across create/close cycles")
 
 PROPS["C20"] = dict(engine="E18", level="exploration",
-   rule="(a) differential: for each of the 12 typed packages (facade code instantiated from one harness template), a typed controller and an untyped kcache controller on ONE fake server run the same seeded scenario over the whole typed surface (Subscribe, SubscribeWithFilter, SubscribeForFilter, Clone, CloneWithFilter, CloneForFilter, subscribers below each clone, Refilter, Cache().List/Get, NewMonitor on root and on a filtered clone, a stalled subscriber for overflow, Close of a subscription / clone / monitor / root, or cancellation of the constructor's context); 30-60 steps of mutations and refilters with a quiescence barrier and a full comparison after EVERY step (cache content restricted to the type, event sequences, callback sequences, readiness, doneness), plus variants injecting a foreign-typed object through the watch stream and through a heterogeneous list. (b) REST recorder: every typed NewController over an in-memory http.RoundTripper for namespace in {all, default, kube-system}; recorded list and watch requests vs an independently written table. distinct = distinct case descriptor; non-trivial = reached at least one comparison / request check. The generated joins are exercised by E10 (C09).",
+   rule="(a) differential: for each of the 12 typed packages (facade code instantiated from one harness template), a typed controller and an untyped kcache controller on ONE fake server run the same seeded scenario over the whole typed surface (Subscribe, SubscribeWithFilter, SubscribeForFilter, Clone, CloneWithFilter, CloneForFilter, subscribers below each clone, Refilter, Cache().List/Get, NewMonitor on root and on a filtered clone, a stalled subscriber for overflow, Close of a subscription / clone / monitor / root, or cancellation of the constructor's context); 30-60 steps of mutations and refilters with a quiescence barrier and a full comparison after EVERY step (cache content restricted to the type, event sequences, callback sequences, readiness, doneness), plus variants injecting a foreign-typed object through the watch stream and through a heterogeneous list. (b) REST recorder: every typed NewController over an in-memory http.RoundTripper for namespace in {all, default, kube-system}; recorded list and watch requests vs an independently written table. distinct = distinct case descriptor; non-trivial = reached at least one comparison / request check. The eight generated joins and the double join run E10's scenarios (create/close cycles, content, mirror, census) inside this check as well, reported as join:<class>.",
    assumptions=["sequence equality is demanded only in clean segments (no relist within the run, no watch faults), where both sequences are determined by the server log", "client-go is trusted to build and issue the requests it is asked for", "NOT decided: textual equality of generated*.go with the instantiated templates (a property of program text; DESIGN 5.20c / 9)"],
    floors={"any": {"cache-comparisons": 4000, "stream-comparisons": 4000, "callback-comparisons": 1000, "request-checks": 34, "overflow-checks": 40, "foreign-objects-in-untyped-cache": 50}},
    level_text="Differential runtime monitoring of every typed package against the untyped core on identical inputs, over the whole typed API surface, with exact comparison at quiescence barriers; request-level recording of what each typed client lists and watches. The source-text clause of the property is outside what executions can observe and is not claimed.",
